@@ -783,6 +783,7 @@ func (e *Enc) builtin(v ssa.Value, b *ssa.Builtin, c *ssa.CallCommon, in ssa.Ins
 			opt := e.w.so.optSort(e.sortOf(t.Elem()))
 			wk := e.fresh("lenwit", e.sortOf(t.Key()))
 			e.assert(imp(fmt.Sprintf("(> %s 0)", cn), fmt.Sprintf("((_ is Some_%s) (select %s %s))", opt, contents, wk)))
+			e.assert(imp(eq(cn, "0"), fmt.Sprintf("(forall ((kk %s)) (not ((_ is Some_%s) (select %s kk))))", e.sortOf(t.Key()), opt, contents)))
 			e.setVal(v, cn)
 		case *types.Array:
 			e.setVal(v, strconv.FormatInt(t.Len(), 10))
